@@ -570,3 +570,206 @@ Definition rtu_run_cancel_eq := run_cancel_eq rstate (PRtu p) (rtu_parse p) Star
   bytes bytes_nil bytes_app bytes_firstn bytes_skipn
   (rtu_H_mk p) (fun _ => eq_refl) I (fun _ _ _ => eq_refl) ltac:(cbn; lia) rneed_cap (rstuck p) (rtu_none p) (rtu_some p) (rtu_err p) (rtu_panic p) (rtu_stable p).
 End Role3.
+
+(* ---------------------------------------------------------------- after a framing error: what is left (RTU server across port re-opens) *)
+Section RoleAfter.
+Variable p : ptype.
+Notation r := (role_of p).
+
+Definition rafter_from (F : nat) (st : rstate) (s : list N) : list N :=
+  match st with
+  | Start => rref_after F r s
+  | ReadToOffsetForLength d off =>
+      if Nat.ltb (length s) (1 + off) then []
+      else rtu_body_after (rref_after F r) d (1 + off + N.to_nat (nth off s 0%N)) s
+  | ReadFullBody d len => rtu_body_after (rref_after F r) d (1 + len) s
+  end.
+
+Lemma rref_after_unfold F s : rref_after (S F) r s =
+  if Nat.ltb (length s) 2 then []
+  else let d := nth 0 s 0%N in let t := skipn 1 s in
+       match length_rule r (nth 0 t 0%N) with
+       | LUnknown => t
+       | LFixed n => rtu_body_after (rref_after F r) d (1 + n) t
+       | LCount off => if Nat.ltb (length t) (1 + off) then []
+                       else rtu_body_after (rref_after F r) d (1 + off + N.to_nat (nth off t 0%N)) t
+       end.
+Proof. destruct s as [|a [|fcv rest]]; reflexivity. Qed.
+
+Lemma body_after_ext k1 k2 d plen t : (forall t', length t' < length t -> k1 t' = k2 t') ->
+  rtu_body_after k1 d plen t = rtu_body_after k2 d plen t.
+Proof.
+  intros H. unfold rtu_body_after. destruct (Nat.ltb 253 plen); [reflexivity|].
+  destruct (Nat.ltb_spec (length t) (plen + 2)); [reflexivity|]. destruct (N.eqb _ _); [|reflexivity]. apply H. rewrite skipn_length. lia.
+Qed.
+Lemma rref_after_fuel : forall f1 f2 s, length s < f1 -> length s < f2 -> rref_after f1 r s = rref_after f2 r s.
+Proof.
+  induction f1 as [|f1 IH]; intros f2 s H1 H2; [lia|]. destruct f2 as [|f2]; [lia|]. rewrite !rref_after_unfold.
+  destruct (Nat.ltb_spec (length s) 2); [reflexivity|]. cbv zeta.
+  assert (Hk : forall t', length t' < length (skipn 1 s) -> rref_after f1 r t' = rref_after f2 r t').
+  { intros t' Ht. rewrite skipn_length in Ht. apply IH; lia. }
+  destruct (length_rule _ _); [now apply body_after_ext| |reflexivity]. destruct (Nat.ltb _ _); [reflexivity|now apply body_after_ext].
+Qed.
+Lemma rref_after_step F s : length s < F -> 2 <= length s ->
+  rref_after F r s =
+  match length_rule r (nth 0 (skipn 1 s) 0%N) with
+  | LUnknown => skipn 1 s
+  | LFixed n => rafter_from F (ReadFullBody (nth 0 s 0%N) n) (skipn 1 s)
+  | LCount off => rafter_from F (ReadToOffsetForLength (nth 0 s 0%N) off) (skipn 1 s)
+  end.
+Proof.
+  intros HF H2. destruct F as [|F]; [lia|]. rewrite rref_after_unfold. destruct (Nat.ltb_spec (length s) 2); [lia|]. cbv zeta.
+  assert (Hk : forall t', length t' < length (skipn 1 s) -> rref_after F r t' = rref_after (S F) r t').
+  { intros t' Ht. rewrite skipn_length in Ht. apply rref_after_fuel; lia. }
+  cbn [rafter_from]. destruct (length_rule _ _); [now apply body_after_ext| |reflexivity].
+  destruct (Nat.ltb _ _); [reflexivity|now apply body_after_ext].
+Qed.
+
+(* the remainder is shorter than the stream whenever the Spec reports a framing error *)
+Lemma body_after_len k fi d plen t fs e kf :
+  (forall t' fs' e', length t' < length t -> kf t' = (fs', EndBad e') -> length (k t') < length t') ->
+  ref_rtu_body kf fi d plen t = (fs, EndBad e) -> length (rtu_body_after k d plen t) <= length t.
+Proof.
+  intros Hk. unfold ref_rtu_body, rtu_body_after. destruct (Nat.ltb 253 plen); [intros _; lia|].
+  destruct (Nat.ltb_spec (length t) (plen + 2)); [destruct fi; discriminate|]. destruct (N.eqb _ _).
+  - destruct (kf (skipn (plen + 2) t)) as [fs' e'] eqn:Ek. intros Hq; inversion Hq; subst.
+    specialize (Hk (skipn (plen + 2) t) fs' e ltac:(rewrite skipn_length; lia) Ek). rewrite skipn_length in *. lia.
+  - intros _. rewrite skipn_length. lia.
+Qed.
+Lemma rref_after_len : forall F s fi fs e, length s < F -> rref F r s fi = (fs, EndBad e) -> length (rref_after F r s) < length s.
+Proof.
+  induction F as [|F IH]; intros s fi fs e HF; [lia|]. rewrite (rref_unfold p), rref_after_unfold.
+  destruct (Nat.ltb_spec (length s) 2) as [|H2]; [destruct fi; discriminate|]. cbv zeta.
+  assert (Ht : length (skipn 1 s) = length s - 1) by apply skipn_length.
+  assert (Hk : forall t' fs' e', length t' < length (skipn 1 s) -> kont p F fi t' = (fs', EndBad e') -> length (rref_after F r t') < length t').
+  { intros t' fs' e' Hl Hr. apply (IH t' fi fs' e'); [lia|exact Hr]. }
+  destruct (length_rule _ _).
+  - intros H. pose proof (body_after_len _ _ _ _ _ _ _ _ Hk H). lia.
+  - destruct (Nat.ltb _ _); [destruct fi; discriminate|]. intros H. pose proof (body_after_len _ _ _ _ _ _ _ _ Hk H). lia.
+  - intros _. lia.
+Qed.
+
+(* ---- sub-parsers ---- *)
+Lemma after_body_at k d len b fut : 1 + len <= 253 -> 1 + len + 2 <= buf_len b ->
+  rtu_body_after k d (1 + len) (b_pend b ++ fut) =
+  if N.eqb (nth (1 + len + 1) (b_pend b) 0 * 256 + nth (1 + len) (b_pend b) 0)%N (crc (d :: firstn (1 + len) (b_pend b)))
+  then k (b_pend (consume (1 + len + 2) b) ++ fut) else b_pend (consume (1 + len + 2) b) ++ fut.
+Proof.
+  intros Hle Hge. unfold rtu_body_after, buf_len in *. destruct (Nat.ltb_spec 253 (1 + len)); [lia|].
+  rewrite app_length. destruct (Nat.ltb_spec (length (b_pend b) + length fut) (1 + len + 2)); [lia|].
+  rewrite firstn_app_le by lia. rewrite !app_nth1 by lia.
+  replace (nth (1 + len) (b_pend b) 0 + 256 * nth (1 + len + 1) (b_pend b) 0)%N
+    with (nth (1 + len + 1) (b_pend b) 0 * 256 + nth (1 + len) (b_pend b) 0)%N by lia.
+  rewrite skipn_app_le by lia. reflexivity.
+Qed.
+
+Lemma sfull_after d len b st' b' res fut F : sfull d len b = (st', b', res) ->
+  rafter_from F (ReadFullBody d len) (b_pend b ++ fut) =
+  match res with
+  | SGot _ => rref_after F r (b_pend b' ++ fut)
+  | SBad _ => b_pend b' ++ fut
+  | SNeed => rafter_from F st' (b_pend b' ++ fut)
+  end.
+Proof.
+  unfold sfull. cbn [rafter_from]. destruct (Nat.ltb_spec 253 (1 + len)) as [Hbig|].
+  - intros Hq; inversion Hq; subst. unfold rtu_body_after. destruct (Nat.ltb_spec 253 (1 + len)); [reflexivity|lia].
+  - destruct (Nat.ltb_spec (buf_len b) (1 + len + 2)); [intros Hq; inversion Hq; subst; reflexivity|].
+    rewrite after_body_at by lia. destruct (N.eqb _ _); intros Hq; inversion Hq; subst; reflexivity.
+Qed.
+
+Lemma after_offset_to_full d off b fut F : 1 + off <= buf_len b ->
+  rafter_from F (ReadToOffsetForLength d off) (b_pend b ++ fut) =
+  rafter_from F (ReadFullBody d (off + N.to_nat (nth off (b_pend b) 0%N))) (b_pend b ++ fut).
+Proof.
+  intros H. unfold buf_len in H. cbn [rafter_from]. rewrite app_length.
+  destruct (Nat.ltb_spec (length (b_pend b) + length fut) (1 + off)); [lia|].
+  rewrite app_nth1 by lia. now rewrite Nat.add_assoc.
+Qed.
+Lemma soffset_after d off b st' b' res fut F : soffset d off b = (st', b', res) ->
+  rafter_from F (ReadToOffsetForLength d off) (b_pend b ++ fut) =
+  match res with
+  | SGot _ => rref_after F r (b_pend b' ++ fut)
+  | SBad _ => b_pend b' ++ fut
+  | SNeed => rafter_from F st' (b_pend b' ++ fut)
+  end.
+Proof.
+  unfold soffset. destruct (Nat.ltb_spec (buf_len b) (1 + off)); [intros Hq; inversion Hq; subst; reflexivity|].
+  intros Hq. rewrite after_offset_to_full by assumption. exact (sfull_after _ _ _ _ _ _ fut F Hq).
+Qed.
+
+Lemma start_step_after b fut F : bytes (b_pend b) -> 2 <= buf_len b -> length (b_pend b ++ fut) < F ->
+  rref_after F r (b_pend b ++ fut) =
+  match length_mode p (nth 0 (b_pend (consume 1 b)) 0%N) with
+  | Unknown => b_pend (consume 1 b) ++ fut
+  | Fixed l => rafter_from F (ReadFullBody (nth 0 (b_pend b) 0%N) l) (b_pend (consume 1 b) ++ fut)
+  | Offset o => rafter_from F (ReadToOffsetForLength (nth 0 (b_pend b) 0%N) o) (b_pend (consume 1 b) ++ fut)
+  end.
+Proof.
+  intros Hb H2 HF. unfold buf_len in H2. rewrite (rref_after_step F _ HF) by (rewrite app_length; lia).
+  rewrite skipn_app_le by lia. cbn [consume b_pend].
+  assert (Hl1 : 1 <= length (skipn 1 (b_pend b))) by (rewrite skipn_length; lia).
+  rewrite (app_nth1 (skipn 1 (b_pend b)) fut) by lia. rewrite (app_nth1 (b_pend b) fut) by lia.
+  assert (Hfc : (nth 0 (skipn 1 (b_pend b)) 0 < 256)%N) by (apply bytes_nth, bytes_skipn, Hb).
+  rewrite <- (length_mode_spec p _ Hfc). destruct (length_mode p _); reflexivity.
+Qed.
+
+Lemma srtu_after st b st' b' res fut F : bytes (b_pend b) -> length (b_pend b ++ fut) < F -> srtu p st b = (st', b', res) ->
+  rafter_from F st (b_pend b ++ fut) =
+  match res with
+  | SGot _ => rref_after F r (b_pend b' ++ fut)
+  | SBad _ => b_pend b' ++ fut
+  | SNeed => rafter_from F st' (b_pend b' ++ fut)
+  end.
+Proof.
+  intros Hb HF. destruct st as [|d len|d off]; cbn [srtu].
+  - destruct (Nat.ltb_spec (buf_len b) 2) as [|H2]; [intros Hq; inversion Hq; subst; reflexivity|].
+    change (rafter_from F Start (b_pend b ++ fut)) with (rref_after F r (b_pend b ++ fut)).
+    rewrite (start_step_after b fut F Hb H2 HF).
+    destruct (length_mode p (nth 0 (b_pend (consume 1 b)) 0%N)) as [l|o|].
+    + apply sfull_after.
+    + apply soffset_after.
+    + intros Hq; inversion Hq; subst. reflexivity.
+  - apply sfull_after.
+  - apply soffset_after.
+Qed.
+
+(* ---- the model ---- *)
+Lemma rtu_after_any st b st' b' res : wf b -> bytes (b_pend b) -> rst_ok st -> rtu_parse p st b = (st', b', res) ->
+  forall fut F, length (b_pend b ++ fut) < F ->
+  rafter_from F st (b_pend b ++ fut) =
+  match res with
+  | Ok (Some _) => rref_after F r (b_pend b' ++ fut)
+  | Err _ => b_pend b' ++ fut
+  | Ok None => rafter_from F st' (b_pend b' ++ fut)
+  | Panic => []
+  end.
+Proof.
+  intros Hwf Hb Hst Ep fut F HF. rewrite (rtu_parse_eq p st b Hwf Hb Hst) in Ep.
+  destruct (srtu p st b) as [[st0 b0] r0] eqn:Es. inversion Ep; subst; clear Ep.
+  rewrite (srtu_after st b st' b' r0 fut F Hb HF Es). destruct r0; reflexivity.
+Qed.
+End RoleAfter.
+
+Section Role4.
+Variable p : ptype.
+Lemma rtu_HA_none st b st' b' : wf b -> bytes (b_pend b) -> rst_ok st -> rtu_parse p st b = (st', b', Ok None) ->
+  forall fut F, length (b_pend b ++ fut) < F -> rafter_from p F st (b_pend b ++ fut) = rafter_from p F st' (b_pend b' ++ fut).
+Proof. intros Hwf Hb Hst Ep fut F HF. exact (rtu_after_any p st b st' b' _ Hwf Hb Hst Ep fut F HF). Qed.
+Lemma rtu_HA_some st b st' b' f : wf b -> bytes (b_pend b) -> rst_ok st -> rtu_parse p st b = (st', b', Ok (Some f)) ->
+  forall fut F, length (b_pend b ++ fut) < F -> rafter_from p F st (b_pend b ++ fut) = rref_after F (role_of p) (b_pend b' ++ fut).
+Proof. intros Hwf Hb Hst Ep fut F HF. exact (rtu_after_any p st b st' b' _ Hwf Hb Hst Ep fut F HF). Qed.
+Lemma rtu_HA_err st b st' b' e : wf b -> bytes (b_pend b) -> rst_ok st -> rtu_parse p st b = (st', b', Err e) ->
+  forall fut F, length (b_pend b ++ fut) < F -> rafter_from p F st (b_pend b ++ fut) = b_pend b' ++ fut.
+Proof. intros Hwf Hb Hst Ep fut F HF. exact (rtu_after_any p st b st' b' _ Hwf Hb Hst Ep fut F HF). Qed.
+
+Definition rtu_run_resume_ref := run_resume_ref rstate (PRtu p) (rtu_parse p) Start rst_ok rneed rcons_need (fun F s fi => rref F (role_of p) s fi) (rref_from p)
+  bytes bytes_nil bytes_app bytes_firstn bytes_skipn
+  (rtu_H_mk p) (fun _ => eq_refl) I (fun _ _ _ => eq_refl) ltac:(cbn; lia) rneed_cap (rstuck p) (rtu_none p) (rtu_some p) (rtu_err p) (rtu_panic p) (rtu_stable p) (rtu_tail (role_of p)) (fun F1 F2 s fi => rref_fuel p F1 F2 s fi) (rtu_ref_app p) (rtu_tail_len p)
+  (fun F s => rref_after F (role_of p) s) (rafter_from p) (fun _ _ => eq_refl) rtu_HA_none rtu_HA_some rtu_HA_err
+  (fun F s fi fs e => rref_after_len p F s fi fs e).
+Definition rtu_gres_fuel := gres_fuel rstate (PRtu p) (rtu_parse p) Start rst_ok rneed rcons_need (fun F s fi => rref F (role_of p) s fi) (rref_from p)
+  bytes bytes_nil bytes_app bytes_firstn bytes_skipn
+  (rtu_H_mk p) (fun _ => eq_refl) I (fun _ _ _ => eq_refl) ltac:(cbn; lia) rneed_cap (rstuck p) (rtu_none p) (rtu_some p) (rtu_err p) (rtu_panic p) (rtu_stable p) (rtu_tail (role_of p)) (fun F1 F2 s fi => rref_fuel p F1 F2 s fi) (rtu_ref_app p) (rtu_tail_len p)
+  (fun F s => rref_after F (role_of p) s) (rafter_from p) (fun _ _ => eq_refl) rtu_HA_none rtu_HA_some rtu_HA_err
+  (fun F s fi fs e => rref_after_len p F s fi fs e).
+End Role4.
